@@ -101,6 +101,19 @@ func sendCmd(g *service.GoJT808, key string, cmd consts.JT808CommandType, body [
 	}
 }
 
+// sendCmdObj is sendCmd for a caller-owned (possibly re-used) ActiveMessage object.
+func sendCmdObj(g *service.GoJT808, am *service.ActiveMessage, limit time.Duration) cmdResult {
+	done := make(chan *service.Message, 1)
+	t0 := time.Now()
+	go func() { done <- g.SendActiveMessage(am) }()
+	select {
+	case m := <-done:
+		return cmdResult{returned: true, msg: m, dur: time.Since(t0), kind: classify(m), pseq: am.ExtensionFields.PlatformSeq}
+	case <-time.After(limit):
+		return cmdResult{kind: "stranded", dur: time.Since(t0)}
+	}
+}
+
 func slackFor(timeout time.Duration) time.Duration { return 3*time.Second + 20*timeout }
 
 // goroutineDump returns the stacks of goroutines parked inside package service (evidence for a stranded caller).
@@ -219,6 +232,12 @@ func c13Run(srv *svc.Server, sc c13Scenario, r *core.Rand) (viol [][2]string, in
 			t.Close()
 			return nil, true, false, nil
 		}
+		// the writer is held inside a slow write callback (heartbeat replies) while commands queue up behind it
+		svc.SlowWrite.Store(t.Phone, 3*time.Millisecond)
+		defer svc.SlowWrite.Delete(t.Phone)
+		for i := 0; i < 2; i++ {
+			t.Write(t.Frame(0x0002, uint16(5+i), nil))
+		}
 		launch(sc.K, 0)
 		// heartbeats keep the writer busy answering (its write callbacks run) while the peer goes away
 		for i := 0; i < 3; i++ {
@@ -263,7 +282,7 @@ func c13Run(srv *svc.Server, sc c13Scenario, r *core.Rand) (viol [][2]string, in
 
 func c13Worker(c *core.Collector, x *Ctx) {
 	c.Rule = "enumerated scenarios: disconnect point {before any byte, partial frame, joined with k commands queued and unread, after the terminal read j<=k commands, after it answered j of them, while write callbacks run, at timer expiry, during teardown with callers racing} " +
-		"x k=0..4 queued/outstanding commands x timeout {20,100,500} ms x {FIN,RST}, each under a different delay-injection seed; oracle: process alive and every call returned within timeout+slack. distinct by (scenario parameters, observed yield-site trace hash)"
+		"x k in {0..4, 6, 10} queued/outstanding commands (bursts larger than the 3-slot command channel) x timeout {20,100,500} ms x {FIN,RST}, each under a different delay-injection seed; oracle: process alive and every call returned within timeout+slack. distinct by (scenario parameters, observed yield-site trace hash)"
 	startProbe()
 	seed := c.Seed*1000 + uint64(x.Batch)
 	yielding := svc.YieldFromEnv(seed)
@@ -275,10 +294,10 @@ func c13Worker(c *core.Collector, x *Ctx) {
 	// scenario list for this batch: the full grid is spread over the batches
 	var grid []c13Scenario
 	for _, p := range c13Points {
-		for k := 0; k <= 4; k++ {
+		for _, k := range []int{0, 1, 2, 3, 4, 6, 10} {
 			for _, to := range []int{20, 100, 500} {
 				for _, rst := range []bool{false, true} {
-					for readN := 0; readN <= k; readN++ {
+					for readN := 0; readN <= k && readN <= 4; readN++ {
 						if (p != "after-reading-some-commands" && p != "after-responding-to-some") && readN != 0 {
 							continue
 						}
